@@ -347,6 +347,12 @@ func c04Case(c *mon.Ctx, r *mon.Rand) {
 // the earlier raw value" (what a registry alias built in a reused, not
 // re-sliced buffer would read) has an identity of its own.
 func c04AliasLength(c *mon.Ctx, r *mon.Rand) {
+	aliasLengthCase(c, r, "wrong-name-or-tags/alias", false)
+}
+
+// aliasLengthCase is shared with C05 (checkPtr: the two derivations are also
+// two scope objects).
+func aliasLengthCase(c *mon.Ctx, r *mon.Rand, sig string, checkPtr bool) {
 	so := tally.SanitizeOptions{
 		NameCharacters:       tally.ValidCharacters{Ranges: tally.AlphanumericRange, Characters: tally.UnderscoreDashDotCharacters},
 		KeyCharacters:        tally.ValidCharacters{Ranges: tally.AlphanumericRange, Characters: tally.UnderscoreCharacters},
@@ -383,17 +389,22 @@ func c04AliasLength(c *mon.Ctx, r *mon.Rand) {
 	c.Eval(1)
 	desc := map[string]interface{}{"first_raw_value": v, "first_sanitized": sv, "second_raw_value": late, "key": key, "cached": cached, "prefix": opts.Prefix}
 	c.Guard("panic/alias", func() interface{} { return desc }, func() {
-		root.Tagged(map[string]string{key: v}).Counter("m").Inc(1)
-		root.Tagged(map[string]string{key: late}).Counter("m").Inc(2)
+		s1 := root.Tagged(map[string]string{key: v})
+		s1.Counter("m").Inc(1)
+		s2 := root.Tagged(map[string]string{key: late})
+		s2.Counter("m").Inc(2)
+		if checkPtr && s1 == s2 {
+			c.Violation("different-identity-same-scope/alias", map[string]interface{}{"why": fmt.Sprintf("Tagged({%s:%q}) returned the scope of Tagged({%s:%q}), whose tags are {%s:%s}", key, late, key, v, key, sv), "case": desc})
+		}
 		tally.VerifReportPass(root)
 	})
 	_, agg, _ := rec.Snapshot()
 	name := mon.RefName(opts.Prefix, ".", "m")
 	if got := agg[mon.IdentKey(name, map[string]string{key: sv})].Sum; got != 1 {
-		c.Violation("wrong-name-or-tags/alias", map[string]interface{}{"why": fmt.Sprintf("counter of the first derivation: %d delivered under tags {%s:%s}, 1 recorded", got, key, sv), "case": desc})
+		c.Violation(sig, map[string]interface{}{"why": fmt.Sprintf("counter of the first derivation: %d delivered under tags {%s:%s}, 1 recorded", got, key, sv), "case": desc})
 	}
 	if got := agg[mon.IdentKey(name, map[string]string{key: late})].Sum; got != 2 {
-		c.Violation("wrong-name-or-tags/alias", map[string]interface{}{"why": fmt.Sprintf("counter of the second derivation: %d delivered under tags {%s:%s}, 2 recorded", got, key, late), "case": desc})
+		c.Violation(sig, map[string]interface{}{"why": fmt.Sprintf("counter of the second derivation: %d delivered under tags {%s:%s}, 2 recorded", got, key, late), "case": desc})
 	}
 	c.Event("length-changing-sanitizations", 1)
 }
